@@ -98,7 +98,7 @@ def string_oracle(case):
             v = text
         t1 = helper.string(v)
         toks2 = _tok1(t1 + follow)
-        feat = feature(v)
+        feat = feature(v) + head_tag(v)
         if not toks2 or toks2[0][0] != "STRING":
             return ("serialised string value is not read back as one STRING token", feat)
         nxt = toks2[1] if len(toks2) > 1 else None
@@ -123,6 +123,24 @@ def _end_col(t):
         else:
             col += 1
     return line, col
+
+
+def ref_string(v):
+    """reference copy of helper.string as it is at the pinned HEAD: the open string findings are recognised only while
+    the text written for the value is exactly this one (a regression that writes something else is reported)"""
+    v = v.replace("\n", "\\a ").replace("\r", "\\d ").replace("\f", "\\c ").replace('"', '\\"')
+    if v.endswith("\\"):
+        v = v[:-1] + "\\\\"
+    return '"%s"' % v
+
+
+def head_tag(v):
+    from css_parser import helper
+    try:
+        same = helper.string(v) == ref_string(v)
+    except Exception:  # noqa
+        same = False
+    return " [written as the reference helper.string writes it]" if same else " [NOT written as the reference helper.string writes it]"
 
 
 def feature(v):
@@ -249,15 +267,128 @@ def sheet_feature(text):
     return "".join(" [sheet has a string: %s]" % f for f in sorted(feats))
 
 
+def _indent(line):
+    return len(line) - len(line.lstrip(" \t"))
+
+
+def comment_growth(t1, t2):
+    """exact description of how two serialisations differ when multi-line comments are re-indented.  At the pinned HEAD
+    a continuation line of a comment that sits in a selector / value ('inline') or between the rules of an @media block
+    ('media-level') gains, per round, exactly the indentation of the line on which the comment opens; a comment that sits
+    directly in a declaration block ('decl-block') does not move (do_css_CSSStyleDeclaration left-strips its lines).
+    Anything else gets a different tag and is therefore not covered by the known finding."""
+    l1, l2 = t1.split("\n"), t2.split("\n")
+    if len(l1) != len(l2):
+        return "[line count differs]"
+    locs = set()
+    for i, (x, y) in enumerate(zip(l1, l2)):
+        if x == y:
+            continue
+        if x.lstrip(" \t") != y.lstrip(" \t"):
+            return "[lines differ in more than leading white space]"
+        j = i - 1
+        while j >= 0:
+            o, c = l1[j].rfind("/*"), l1[j].rfind("*/")
+            if o >= 0 and o > c:
+                break
+            if c >= 0:
+                j = -1
+                break
+            j -= 1
+        if j < 0:
+            return "[a differing line is not a continuation line of a comment]"
+        if _indent(y) - _indent(x) != _indent(l1[j]):
+            return "[growth differs from the indentation of the line that opens the comment]"
+        if l1[j].lstrip(" \t").startswith("/*"):
+            k = j - 1
+            while k >= 0 and not (_indent(l1[k]) < _indent(l1[j]) and l1[k].rstrip().endswith("{")):
+                k -= 1
+            if k < 0:
+                locs.add("top-level")
+            elif l1[k].lstrip().lower().startswith("@media"):
+                locs.add("media-level")
+            else:
+                locs.add("decl-block")
+        else:
+            locs.add("inline")
+    if not locs:
+        return "[texts equal]"
+    return "[continuation lines grow by the indentation of the opening line; comment in: %s]" % ",".join(sorted(locs))
+
+
+def refine(f, text, cause):
+    """a tag that pins the HEAD behaviour of the cause family more exactly than the rule-based cause does; the signatures
+    of the open findings demand the tag that HEAD produces, so a regression with the same cause but another shape
+    (other place, other amount, other value) is reported"""
+    kind = f.get("kind", "")
+    t1, t2, d = f.get("text1"), f.get("text2"), str(f.get("detail") or "")
+    try:
+        if cause.startswith("comment:"):
+            if isinstance(t1, str) and isinstance(t2, str) and t1 != t2:
+                return " " + comment_growth(t1, t2)
+            if kind.endswith("-model"):
+                m = re.search(r": (.*?) != (.*)$", d, re.S)
+                strip = lambda x: "\n".join(z.lstrip(" \t") for z in x.split("\n"))  # noqa
+                if m and strip(m.group(1)) == strip(m.group(2)):
+                    return " [model only: comment text differs in the leading white space of continuation lines; texts equal]"
+            return " [unrecognised shape]"
+        if cause.startswith("string: escaped double quote") or cause.startswith("string/url: backslash"):
+            want = "double quote preceded by an odd number" if cause.startswith("string: escaped") else "backslash"
+            ok = False
+            for t in _tok1(text, True):
+                if t[0] == "STRING":
+                    v = _stv(t)
+                    if want in feature(v):
+                        if "NOT" in head_tag(v):
+                            return " [string written differently from the reference helper.string]"
+                        ok = True
+                elif t[0] == "URI" and "\\" in t[1] and want == "backslash":
+                    ok = True
+            if not ok:
+                return " [no such string value in the input]"
+            if cause.startswith("string/url") and isinstance(t1, str) and isinstance(t2, str) and t1 != t2 and t2:
+                # the first difference must lie inside a string / url literal of the first text that has a backslash
+                n = next((i for i, (x, y) in enumerate(zip(t1, t2)) if x != y), min(len(t1), len(t2)))
+                pos = 0
+                inside = False
+                for t in _tok1(t1, True):
+                    end = pos + len(t[1])
+                    # token values are escape-resolved, so positions are approximate: allow the slack of the escapes
+                    if t[0] in ("STRING", "URI", "INVALID") and "\\" in t[1] and pos - 8 <= n <= end + 8 * (1 + t[1].count("\\")):
+                        inside = True
+                    pos = end
+                if not inside:
+                    return " [first difference is not at a string with a backslash]"
+            return " [input has such a value, written as the reference helper.string writes it]"
+        if cause.startswith("attribute selector:"):
+            import css_parser
+            m = re.search(r"\['([^']*)', '[^']*'\] != ", d)
+            sheet = css_parser.CSSParser(raiseExceptions=False).parseString(text)
+            dflt = sheet.namespaces.get("", None)
+            return " [the lost namespace is the default namespace]" if m and dflt is not None and m.group(1) == dflt \
+                else " [the lost namespace is NOT the default namespace]"
+        if cause.startswith("calc:") and "RATIO" in cause:
+            ok = isinstance(t1, str) and any(t[0] == "RATIO" for t in _tok1(t1, True))
+            return " [first text has a RATIO token]" if ok else " [first text has no RATIO token]"
+        if cause.startswith("unknown at-rule: \"/\""):
+            return " [input has '/' white space '*' in an at-rule]" if re.search(r"@[^;{}]*/\s+\*", text) else " [no such input]"
+    except Exception as e:  # noqa
+        return " [refine failed: %s]" % type(e).__name__
+    return ""
+
+
 def e2e_sig(f, text=None):
-    """canonical family text of an end-to-end failure: '<kind> :: <object class> [@path] :: <cause>' (c03_e2e.family),
-    computed from the failure itself.  Only when the rule-based cause is 'other' (e.g. a rule re-parsed in isolation
-    behind the sheet's serialised @namespace rules, where the broken string is not in the failing text) the string
-    features of the whole sheet are appended, so that the string findings are recognised there too."""
+    """canonical family text of an end-to-end failure: '<kind> :: <object class> [@path] :: <cause> [<HEAD shape tag>]'
+    (c03_e2e.family + refine).  When the rule-based cause is 'other' (e.g. a rule re-parsed in isolation behind the
+    sheet's serialised @namespace rules, where the broken string is not in the failing text) the string features of the
+    whole sheet are appended, so that the string findings are recognised there too."""
     E = _e2e()
     fam = E.family(f)
-    if text is not None and fam.endswith(":: other"):
-        fam += sheet_feature(text)
+    if text is not None:
+        if fam.endswith(":: other"):
+            fam += sheet_feature(text)
+        else:
+            fam += refine(f, text, fam.rsplit(" :: ", 1)[-1])
     return fam
 
 
